@@ -204,9 +204,9 @@ Proof.
   - apply andb_true_iff in D as [N1 N2]. unfold m_map. rewrite Hv.
     destruct (c_seq c); try discriminate N1; destruct (c_nseq c) as [|[|n]]; cbn in N2; try reflexivity;
       destruct (c_seq2 c); try discriminate N2; reflexivity.
-  - apply andb_true_iff in D as [D N2]. apply andb_true_iff in D as [L1 N1]. unfold m_mapcar. rewrite Hv.
-    destruct (c_seq c); try discriminate N1; try discriminate L1; destruct (c_nseq c) as [|[|n]]; cbn in N2; try reflexivity;
-      apply andb_true_iff in N2 as [L2 N2]; destruct (c_seq2 c); try discriminate N2; try discriminate L2; reflexivity.
+  - apply andb_true_iff in D as [L1 N2]. unfold m_mapcar. rewrite Hv.
+    destruct (c_seq c); try discriminate L1; destruct (c_nseq c) as [|[|n]]; cbn in N2; try reflexivity;
+      destruct (c_seq2 c); try discriminate N2; reflexivity.
 Qed.
 
 Theorem concatenate_meets_spec : forall c, c_fn c = FConcatenate -> m_call c = s_call c.
